@@ -163,7 +163,8 @@ fn main() {
                             Some(r) => r,
                             None => continue,
                         };
-                        if runner::run_set(&run) != runner::this_set() {
+                        let rs = runner::run_set(&run);
+                        if !(rs == runner::this_set() || (rs == "any" && runner::this_set() == "A")) {
                             continue;
                         }
                         let (obs, j) = runner::exec_obs_and_judge(sc, &run);
